@@ -3,6 +3,10 @@ import TenpyModel.Ops.Sym
 import TenpyModel.Ops.Terms
 import TenpyModel.Ops.Graph
 import TenpyModel.Ops.MPO
+import TenpyModel.C11.ExtEnv
+import TenpyModel.C11.ExtStruct
+import TenpyModel.C11.ExtDecide
+import TenpyModel.C11.ExtTerms
 open Lean TenpyModel TenpyModel.J
 open TenpyModel.Ops
 
@@ -201,9 +205,183 @@ def handleMPO (j : Json) : Except String Json := do
   | .error _ => pure ()
   return obj out
 
+
+/-! ## extension round: environments, re-arrangements, decision glue, to_TermList (harness/c11_ext.py) -/
+
+def melUnit (o p q : String) : GQ := if o = p ++ "," ++ q then 1 else 0
+
+def optGQ (o : Option GQ) : Json := match o with | some c => ofGQ c | none => Json.null
+
+def parseMPS (j : Json) : Except String (MPSM GQ) := do
+  let lay (x : Json) : Except String (List (List (Edge Nat GQ))) :=
+    listOf (listOf (fun e => do
+      match ← getArr e with
+      | [l, r, p, c] => return (⟨← getNat l, ← getNat r, toString (← getNat p), ← getGQ c⟩ : Edge Nat GQ)
+      | _ => throw "bad MPS entry")) x
+  let A ← lay (← field j "A")
+  let B ← lay (← field j "B")
+  let S ← listOf (listOf getGQ) (← field j "S")
+  let chi ← natList (← field j "chi")
+  return ⟨A, B, S, chi⟩
+
+def parseMaxRange (j : Json) : Except String MaxRange :=
+  if j.isNull then pure .unknown else
+  match j with
+  | .str _ => pure .inf
+  | _ => do let n ← getInt j; pure (.fin n)
+
+def parseMPOX (j : Json) (finite : Bool) : Except String (MPOX GQ) := do
+  let m ← parseMPO j
+  let mr ← parseMaxRange (fieldD j "maxRange" Json.null)
+  let ph ← getBool (fieldD j "plusHc" false)
+  return ⟨m, finite, mr, ph⟩
+
+/-- joined unit names "a.c,b.d" of a grouped site -/
+def joinUnit (x y : String) : String :=
+  match x.splitOn ",", y.splitOn "," with
+  | [a, b], [c, d] => a ++ "." ++ c ++ "," ++ b ++ "." ++ d
+  | _, _ => x ++ "*" ++ y
+
+def ofEdgeS (e : Edge Nat GQ) : Json :=
+  match e.op.splitOn "," with
+  | [a, b] => Json.arr #[e.kL, e.kR, Json.str a, Json.str b, ofGQ e.c]
+  | _ => Json.arr #[e.kL, e.kR, Json.str e.op, ofGQ e.c]
+
+def mpoJsonS (m : MPOM GQ) : Json :=
+  obj [("chi", ofNatList m.chi), ("idL", ofList optJson m.idL), ("idR", ofList optJson m.idR),
+       ("W", ofList (fun l => ofList ofEdgeS (canonLayer l)) m.layers)]
+
+def optMPO (f : MPOM GQ → Json) (o : Option (MPOM GQ)) : Json := match o with | some m => f m | none => Json.null
+
+def epsSqDefault : Rat := (1 / 10000000000 : Rat) * (1 / 10000000000 : Rat)
+
+def handleExt (j : Json) : Except String Json := do
+  let dims ← natList (← field j "d")
+  let finite ← getBool (fieldD j "finite" true)
+  let A ← parseMPOX (← field j "A") finite
+  let mut out : List (String × Json) := []
+  -- environments
+  match j.getObjVal? "psi" with
+  | .ok pj =>
+    let psi ← parseMPS pj
+    let phi ← match j.getObjVal? "phi" with
+      | .ok qj => parseMPS qj
+      | .error _ => pure psi
+    let cuts ← natList (fieldD j "cuts" (Json.arr #[]))
+    let e : Env GQ := ⟨phi, A.m, psi, A.plusHc⟩
+    let vals := cuts.map (fun i0 => Env.fullContraction melUnit GQ.conj e i0)
+    let specs := cuts.map (fun i0 =>
+      let t := tri melUnit GQ.conj (phi.state i0) A.m.denote (psi.state i0)
+      if A.plusHc then t + GQ.conj t else t)
+    out := out ++ [("full_contraction", ofList optGQ vals), ("full_contraction_spec", ofList ofGQ specs)]
+    let names (i : Nat) : List String := (List.range (dims.getD i 1)).map toString
+    out := out ++ [("ev", optGQ (A.m.expectationValueFinite melUnit GQ.conj A.plusHc psi)),
+                   ("var_contr", optGQ (A.m.varianceContr melUnit GQ.conj names psi)),
+                   ("variance", optGQ (A.m.variance melUnit GQ.conj names finite A.plusHc psi)),
+                   ("var_spec", ofGQ (quad melUnit GQ.conj names psi.thetaState A.m.denote A.m.denote psi.thetaState))]
+  | .error _ => pure ()
+  -- sort_legcharges
+  match j.getObjVal? "sort" with
+  | .ok sj =>
+    let q ← listOf (listOf intList) (← field sj "q")
+    let S := A.m.sortLegcharges q
+    out := out ++ [("sort", mpoJson S), ("sort_perms", ofList (fun x => ofNatList (sortPerm x)) q),
+                   ("sort_ok", canonOp S.denote == canonOp A.m.denote)]
+  | .error _ => pure ()
+  -- group_sites
+  match j.getObjVal? "group" with
+  | .ok gj =>
+    let n ← getNat (← field gj "n")
+    let sizes ← optOf natList (fieldD gj "sizes" Json.null)
+    let G := A.m.groupSites joinUnit n sizes
+    let szs := sizes.getD (groupSizes A.m.L n)
+    let ok := match G with
+      | some g => canonOp g.denote == canonOp (A.m.denote.map (fun p => (regroupStr joinUnit szs p.1, p.2)))
+      | none => true
+    let mr ← parseMaxRange (fieldD (← field j "A") "maxRange" Json.null)
+    let gmr : Json := match groupedMaxRange mr szs with
+      | .fin r => Json.num (JsonNumber.fromInt r)
+      | .inf => Json.str "inf"
+      | .unknown => Json.null
+    out := out ++ [("group", optMPO mpoJsonS G), ("group_ok", ok), ("group_max_range", gmr)]
+  | .error _ => pure ()
+  -- enlarge_mps_unit_cell
+  match j.getObjVal? "enlarge" with
+  | .ok ej =>
+    let f ← getNat (← field ej "factor")
+    let w ← getNat (fieldD ej "window" (1 : Nat))
+    let E := A.m.enlargeUnitCell finite f
+    let ok := match E with
+      | some g => canonOp (g.denoteWindow w) == canonOp (A.m.denoteWindow (f * w))
+      | none => true
+    out := out ++ [("enlarge", optMPO mpoJson E), ("enlarge_ok", ok)]
+  | .error _ => pure ()
+  -- extract_segment
+  match j.getObjVal? "segment" with
+  | .ok sj =>
+    let ucw ← getNat (← field sj "ucw")
+    let first ← getNat (← field sj "first")
+    let last ← getNat (← field sj "last")
+    let G := A.m.extractSegment ucw first last
+    out := out ++ [("segment", optMPO mpoJson G),
+                   ("segment_denote", match G with | some g => opJson (canonOp g.denote) | none => Json.null)]
+  | .error _ => pure ()
+  -- decision glue
+  match j.getObjVal? "B" with
+  | .ok bj =>
+    let finB ← getBool (fieldD bj "finite" finite)
+    let B ← parseMPOX bj finB
+    let ns ← optOf getNat (fieldD j "numSites" Json.null)
+    let mrArg ← parseMaxRange (fieldD j "isEqualMaxRange" Json.null)
+    let ov := MPOX.overlap gramUnit GQ.conj hcUnit A B ns
+    let n? := MPOX.overlapNumSites A B ns
+    let ovSpec : Json := match n? with
+      | some n => ofGQ (frobCanon (canonOp (A.window hcUnit GQ.conj n)) (canonOp (B.window hcUnit GQ.conj n)))
+      | none => Json.null
+    let dist := MPOX.distance gramUnit GQ.conj hcUnit (fun z : GQ => z.re) ((1 : Rat) / 100000000000000) A B ns
+    let ie := MPOX.isEqual gramUnit GQ.conj hcUnit GQ.normSq epsSqDefault A B mrArg
+    let ieBA := MPOX.isEqual gramUnit GQ.conj hcUnit GQ.normSq epsSqDefault B A mrArg
+    out := out ++ [("overlap", optGQ ov), ("overlap_num_sites", match n? with | some n => (n : Json) | none => Json.null),
+                   ("overlap_spec", ovSpec), ("distance", optGQ dist),
+                   ("is_equal", match ie with | some b => (b : Json) | none => Json.null),
+                   ("is_equal_BA", match ieBA with | some b => (b : Json) | none => Json.null),
+                   ("is_equal_num_sites", (MPOX.isEqualNumSites A B mrArg : Nat))]
+  | .error _ => pure ()
+  match j.getObjVal? "hermitian" with
+  | .ok hj =>
+    let mrArg ← parseMaxRange (fieldD hj "maxRange" Json.null)
+    let ih := MPOX.isHermitian gramUnit GQ.conj hcUnit GQ.normSq epsSqDefault A mrArg
+    out := out ++ [("is_hermitian", match ih with | some b => (b : Json) | none => Json.null)]
+  | .error _ => pure ()
+  -- to_TermList
+  match j.getObjVal? "termlist" with
+  | .ok tj =>
+    let start ← optOf natList (fieldD tj "start" Json.null)
+    let mr ← optOf getNat (fieldD tj "maxRange" Json.null)
+    let ign ← listOf (fun o => do
+        match ← getArr o with
+        | [a, b] => return unitName (← getNat a) (← getNat b)
+        | _ => throw "bad op") (fieldD tj "ignore" (Json.arr #[]))
+    let L := A.m.L
+    let basis (jj : Nat) : List String :=
+      let d := dims.getD (jj % L) 1
+      (List.range d).flatMap (fun a => (List.range d).map (fun b => unitName a b))
+    let cut2 : Rat := (1 / 1000000000000 : Rat) * (1 / 1000000000000 : Rat)
+    let small (c : GQ) : Bool := c.normSq < cut2
+    let tl := MPOX.toTermList small ign A basis start mr
+    let termJ (t : TTerm GQ) : Json :=
+      Json.arr #[ofList (fun (p : String × Nat) =>
+        match p.1.splitOn "," with
+        | [a, b] => Json.arr #[(a.toNat?.getD 0 : Nat), (b.toNat?.getD 0 : Nat), (p.2 : Nat)]
+        | _ => Json.arr #[Json.str p.1, (p.2 : Nat)]) t.1, ofGQ t.2]
+    out := out ++ [("termlist", match tl with | some l => ofList termJ l | none => Json.null)]
+  | .error _ => pure ()
+  return obj out
+
 def handle (j : Json) : Except String Json := do
   let k ← getStr (← field j "k")
   if k == "mpo" then handleMPO j
+  else if k == "ext" then handleExt j
   else throw s!"unknown kind {k}"
 
 def main : IO Unit := serve handle
